@@ -6,6 +6,7 @@ pub mod evalsym;
 pub mod hashing;
 pub mod interrupt;
 pub mod position;
+pub mod process;
 pub mod rules;
 pub mod search;
 pub mod tables;
@@ -18,6 +19,9 @@ pub fn run(ctx: &Ctx) -> i32 {
     }
     match ctx.id.as_str() {
         "C01" | "C02" | "C17" => rules::run(ctx),
+        "C03" => process::run_c03(ctx),
+        "C13" => process::run_c13(ctx),
+        "C16" => process::run_c16(ctx),
         "C04" => position::run_c04(ctx),
         "C09" => position::run_c09(ctx),
         "C05" => search::run_c05(ctx),
